@@ -11,3 +11,7 @@ import CheetahModel.Properties.C13
 #print axioms C13.rpn_is_infix
 #print axioms C13.nx_centres_at_tabulated_positions
 #print axioms C13.nx_accepts_iff_no_overlap
+#print axioms C13.statement_assign_property_once
+#print axioms C13.statement_last_use_wins
+#print axioms C13.line_expansion
+#print axioms C13.wildcard_semantics
